@@ -16,6 +16,8 @@ Lemma requested_one : forall k k' v,
   if (k' <? 0) || (k' =? K_EXPLICIT_TN) then None
   else if k' =? K_TYPE_NAME then (if k =? K_EXPLICIT_TN then Some (VBool true) else None)
   else if (k' =? K_PROTOCOL) || (k' =? K_P) then (if k =? K_PROT then Some v else None)
+  else if (k' =? K_PRIMARY_KEY) || (k' =? K_PK)
+  then (if (k =? K_PRIMARY_KEY) || (k =? K_COL_PK) then Some v else None)
   else if k' =? K_EXC_TABLE then (if (k =? K_EXC_TABLE) || (k =? K_EXC_DB) then Some v else None)
   else if (k' =? K_MAX_OCCURS) && is_unbounded v then (if k =? K_MAX_OCCURS then Some VInf else None)
   else if k =? k' then Some v else None.
@@ -27,6 +29,7 @@ Proof.
   destruct ((k' <? 0) || (k' =? K_EXPLICIT_TN)); [reflexivity |].
   destruct (k' =? K_TYPE_NAME); [reflexivity |].
   destruct ((k' =? K_PROTOCOL) || (k' =? K_P)); [reflexivity |].
+  destruct ((k' =? K_PRIMARY_KEY) || (k' =? K_PK)); [reflexivity |].
   destruct (k' =? K_EXC_TABLE); [reflexivity |].
   destruct ((k' =? K_MAX_OCCURS) && is_unbounded v); [reflexivity |].
   destruct (M =? k') eqn:E; [apply Z.eqb_eq in E; congruence | reflexivity].
